@@ -100,6 +100,10 @@ def main(only):
             old = {}
     for n, p, s, i in res:
         old[n] = {"mutant": n, "property": p, "status": s, "info": i}
+    # entries of changes that are no longer kept (moved to seeded_superseded/) are dropped
+    kept = set(t[2] for t in targets(None))
+    if not os.environ.get("SELFTEST_MATCH"):
+        old = {k: v for k, v in old.items() if k in kept}
     with open(path, "w") as f:
         json.dump([old[k] for k in sorted(old)], f, indent=1)
     return 1 if missed else 0
